@@ -45,8 +45,16 @@ BUDGET = {"quick": 400, "thorough": 1500}
 KF = "C12-consumer-without-grid-meter-mixed-meter"
 
 
+BATK = {"B": 2, "B2": 3, "BB": 3, "BS": 4}   # battery layouts: 1 inverter + 1 battery; 1 inverter + 2 batteries; 2 inverters + 1 battery;
+#                                               inverter a -> {battery 1, battery 2} and inverter b -> {battery 2} (partially shared)
+
+
+def kind(c):
+    return "B" if c[0] in BATK else c[0]
+
+
 def size(n):
-    return (2 if n[0] == "B" else 1) + sum(size(c) for c in n[1])
+    return BATK.get(n[0], 1) + sum(size(c) for c in n[1])
 
 
 def gen_nodes(budget, under_meter):
@@ -111,12 +119,24 @@ def build(forest):
         me = nid[0]
         if n[0] == "M":
             comps.add(Component(me, CC.METER))
-        elif n[0] == "B":
-            comps.add(Component(me, CC.INVERTER, InverterType.BATTERY))
-            nid[0] += 1
-            comps.add(Component(nid[0], CC.BATTERY))
-            conns.add(Connection(me, nid[0]))
-            info.setdefault("bats", []).append(nid[0])
+        elif n[0] in BATK:
+            ninv = 2 if n[0] in ("BB", "BS") else 1
+            nbat = 2 if n[0] in ("B2", "BS") else 1
+            invs = [me + i for i in range(ninv)]
+            bats = [me + ninv + j for j in range(nbat)]
+            nid[0] = bats[-1]
+            for i in invs:
+                comps.add(Component(i, CC.INVERTER, InverterType.BATTERY))
+            for b in bats:
+                comps.add(Component(b, CC.BATTERY))
+                info.setdefault("bats", []).append(b)
+            for a, i in enumerate(invs):
+                for j, b in enumerate(bats):
+                    if n[0] != "BS" or not (a == 1 and j == 0):   # BS: the second inverter feeds the second battery only
+                        conns.add(Connection(i, b))
+            for i in invs[1:]:
+                conns.add(Connection(parent, i))
+            info[("invs", me)] = invs
         elif n[0] == "P":
             comps.add(Component(me, CC.INVERTER, InverterType.SOLAR))
         elif n[0] == "V":
@@ -133,7 +153,7 @@ def build(forest):
 
 
 def dedicated(n):
-    return n[0] == "M" and len(n[1]) > 0 and all(c[0] != "M" for c in n[1]) and len({c[0] for c in n[1]}) == 1
+    return n[0] == "M" and len(n[1]) > 0 and all(c[0] != "M" for c in n[1]) and len({kind(c) for c in n[1]}) == 1
 
 
 def has_device(n):
@@ -227,10 +247,13 @@ def make(nmax, lo, hi, allow_fallback, reach=False, topos=None, eval_fallback=No
         def rd(me):
             n = info[me]
             if n[0] != "M":
-                v = ex.real(f"p{me}")
-                truth[me] = v
-                tot[n[0]] = tot[n[0]] + E(v)
-                return v
+                tot_v = 0.0
+                for i in info.get(("invs", me), [me]):   # every inverter of a multi-inverter battery layout has its own power
+                    v = ex.real(f"p{i}")
+                    truth[i] = v
+                    tot[kind(n)] = tot[kind(n)] + E(v)
+                    tot_v = tot_v + v
+                return tot_v
             s = 0.0
             for kid in info[("kids", me)]:
                 s = s + rd(kid)
@@ -238,7 +261,7 @@ def make(nmax, lo, hi, allow_fallback, reach=False, topos=None, eval_fallback=No
             # (except a CHP's meter: CHPPowerFormula reads the meter in front of a CHP, "metered CHPs" in the property)
             # In fallback mode the generated fallback of such a grid meter is the sum of its devices, which cannot know the
             # load: there the grid meter is treated as dedicated too (fallback exactness is C19's subject, not C12's).
-            if not (dedicated(n) and (len(forest) > 1 or me not in roots or n[1][0][0] == "C" or eval_fallback)):
+            if not (dedicated(n) and (len(forest) > 1 or me not in roots or n[1][0][0] == "C" or eval_fallback)):  # noqa: E501
                 ld = ex.real(f"load{me}")
                 s = s + ld
                 tot["L"] = tot["L"] + E(ld)
@@ -289,6 +312,14 @@ def instances(tier):
                          f"topologies {lo}..{hi - 1} of {n} with <= {nmax} components, allow_fallback={fb}, "
                          + ("primaries missing: fallback formulas evaluated" if ev else "all primaries valid"),
                          budget_s=600, validate_every=20, programs=hi - lo))
+    shared = []
+    for X in ("B2", "BB", "BS"):
+        x = (X, ())
+        shared += [(x,), (("M", (x,)),), (("M", (x, ("P", ()))),), (x, ("M", (("P", ()),))), (("M", (x, ("B", ()))),), (x, ("B", ())), (("M", (("M", (x,)), ("V", ()))),)]
+    for fb, ev, tag in ((False, False, "nofb"), (True, False, "fb-primary"), (True, True, "fb-fallback")):
+        out.append(I(f"shared-battery-{tag}", "make", (0, 0, len(shared), fb, False, tuple(shared), ev),
+                     f"{len(shared)} topologies with batteries sharing inverters (1 inverter : 2 batteries, 2 inverters : 1 battery, partially shared), allow_fallback={fb}",
+                     budget_s=100, validate_every=5, programs=len(shared)))
     n6 = len(topologies(6))
     rch = 4 if tier == "quick" else 16
     nr, tagr = (6, n6) if tier == "quick" else (nmax, n)
